@@ -322,8 +322,22 @@ PlanC29Rge ==
   {[law |-> "OmeRge", v |-> v, cols |-> RgeCols(v), k |-> 1, nf |-> nf, j |-> j] :
      v \in OmeRgeVariants, nf \in OmeNf, j \in Pts}
 C29RgeVerdict(c, o) == Judge(o.e, IF Switch = "ome-exact" THEN -1700 ELSE -800, "C29:rge:" \o c.v)
-PlanC29 == PlanC29Sum \cup PlanC29Rge
-C29Verdict(c, o) == IF c.law = "OmeRge" THEN C29RgeVerdict(c, o) ELSE C29SumVerdict(c, o)
+(* Non-singlet element, second and third order (scalars, so the RG equation closes on the code's own    *)
+(* gamma_ns^-(nf), gamma_ns^-(nf+1), beta(nf+1) and the downward decoupling table of the coupling):       *)
+(*     dA2/dL = beta0' A1 + gamma0 d1 + gamma1(nf) - gamma1(nf+1)                                         *)
+(*     dA3/dL = 2 beta0' A2 + beta1' A1 + gamma0 d2 + 2 d1 gamma1(nf) + gamma2(nf) - gamma2(nf+1)          *)
+(*              + A1 (gamma0 d1 + gamma1(nf) - gamma1(nf+1))                                              *)
+(* Second order is exact (unchanged tree 7e-15); the third order inherits the parametrised NNLO           *)
+(* anomalous dimension (unchanged tree <= 5e-5 of the largest term for Re N >= 1.3, limit 1e-3).          *)
+OmeRgeNsCases == {<<"us", 2>>, <<"us", 3>>, <<"ps", 2>>}
+PlanC29RgeNs ==
+  {[law |-> "OmeRgeNs", v |-> vk[1], k |-> vk[2], nf |-> nf, j |-> j] : vk \in OmeRgeNsCases, nf \in OmeNf, j \in Pts}
+C29RgeNsVerdict(c, o) ==
+  Judge(o.e, IF Switch = "ome-exact" THEN -1700 ELSE IF c.k = 2 THEN -1100 ELSE -300,
+        "C29:rge-ns:" \o c.v \o (IF c.k = 2 THEN ":second-order" ELSE ":third-order"))
+PlanC29 == PlanC29Sum \cup PlanC29Rge \cup PlanC29RgeNs
+C29Verdict(c, o) == IF c.law = "OmeRge" THEN C29RgeVerdict(c, o)
+                    ELSE IF c.law = "OmeRgeNs" THEN C29RgeNsVerdict(c, o) ELSE C29SumVerdict(c, o)
 
 (* ===========================================================================*)
 Checks == {"C24", "C25", "C26", "C27", "C29", "C30"}
